@@ -200,4 +200,190 @@ theorem catchAll_true (a : Out) : (catchAll true a).2 = none := by simp [catchAl
 theorem catchAll_events (p : Bool) (a : Out) : (catchAll p a).1 = a.1 := by
   unfold catchAll; split <;> rfl
 
+
+/-! ### registry invariants under re-entrant calls -/
+
+/-- `l` would be delivered to on an open endpoint: it is a global listener, or listed under the datagram's prefix `p` -/
+def Reg.Inv (r : Registry) (p : Bytes) (l : Nat) : Prop :=
+  r.listeners.contains l = true ∨ ∃ ls, lookupPrefix r.prefixMap p = some ls ∧ l ∈ ls
+
+theorem deliverCond_of_inv {r : Registry} {l : Nat} {data : Bytes} (hopen : r.isOpen = true)
+    (h : Reg.Inv r (data.take Gen.prefixLen) l) : deliverCond r l data = true := by
+  unfold deliverCond
+  rw [hopen]
+  rcases h with h | ⟨ls, h, _⟩
+  · rw [h]; simp
+  · rw [h]; simp
+
+theorem inv_of_recipient {r : Registry} {data : Bytes} {l : Nat} (hl : l ∈ recipients r data) :
+    Reg.Inv r (data.take Gen.prefixLen) l := by
+  unfold recipients at hl
+  cases hp : lookupPrefix r.prefixMap (data.take Gen.prefixLen) with
+  | some ls => rw [hp] at hl; exact Or.inr ⟨ls, hp, by simpa using hl⟩
+  | none => rw [hp] at hl; exact Or.inl (by simpa using hl)
+
+theorem lookupPrefix_map_append (pm : List (Bytes × List Nat)) (p : Bytes) (x : Nat) :
+    lookupPrefix (pm.map fun (q, ls) => (q, ls ++ [x])) p = (lookupPrefix pm p).map (· ++ [x]) := by
+  induction pm with
+  | nil => rfl
+  | cons e rest ih =>
+    obtain ⟨q, ls⟩ := e
+    simp only [List.map, lookupPrefix]
+    split
+    · rfl
+    · exact ih
+
+theorem lookupPrefix_setPrefix (pm : List (Bytes × List Nat)) (p q : Bytes) (new : List Nat) :
+    lookupPrefix (setPrefix pm q new) p = if q == p then some new else lookupPrefix pm p := by
+  induction pm with
+  | nil => simp [setPrefix, lookupPrefix]
+  | cons e rest ih =>
+    obtain ⟨k, old⟩ := e
+    simp only [setPrefix]
+    by_cases hkq : (k == q) = true
+    · rw [if_pos hkq]
+      have : k = q := by simpa using hkq
+      subst this
+      simp only [lookupPrefix]
+      by_cases hkp : (k == p) = true
+      · simp [hkp]
+      · simp [hkp]
+    · rw [if_neg hkq]
+      simp only [lookupPrefix]
+      by_cases hkp : (k == p) = true
+      · have hk : k = p := by simpa using hkp
+        subst hk
+        have hq : ¬ ((q == k) = true) := by
+          intro h; apply hkq; have : q = k := by simpa using h
+          subst this; simp
+        simp [hq]
+      · rw [if_neg hkp, ih]
+        by_cases hqp : (q == p) = true
+        · simp [hqp]
+        · simp [hqp, hkp]
+
+theorem sameSet_mem {a b : List Nat} (h : sameSet a b = true) {x : Nat} (hx : x ∈ a) : x ∈ b := by
+  unfold sameSet at h
+  simp only [Bool.and_eq_true, List.all_eq_true] at h
+  have := h.1 x hx
+  simpa using this
+
+theorem inv_rm_prefix (pm : List (Bytes × List Nat)) (newls : List Nat) (p : Bytes) (l x : Nat) (hne : l ≠ x)
+    (ls : List Nat) (h : lookupPrefix pm p = some ls) (hl : l ∈ ls) :
+    l ∈ newls ∨ ∃ ls', lookupPrefix (pm.filterMap fun (q, xs) =>
+        let xs' := xs.filter (· != x)
+        if sameSet xs' newls then none else some (q, xs')) p = some ls' ∧ l ∈ ls' := by
+  induction pm with
+  | nil => cases h
+  | cons e rest ih =>
+    obtain ⟨q, xs⟩ := e
+    simp only [lookupPrefix] at h
+    by_cases hq : (q == p) = true
+    · rw [if_pos hq] at h
+      cases h
+      have hmem : l ∈ ls.filter (· != x) := by simp [hl, hne]
+      simp only [List.filterMap_cons]
+      by_cases hs : sameSet (ls.filter (· != x)) newls = true
+      · left; exact sameSet_mem hs hmem
+      · right
+        simp only [hs]
+        exact ⟨_, by simp [lookupPrefix, hq], hmem⟩
+    · rw [if_neg hq] at h
+      rcases ih h with h' | ⟨ls', h', hl'⟩
+      · exact Or.inl h'
+      · right
+        simp only [List.filterMap_cons]
+        split
+        · exact ⟨ls', h', hl'⟩
+        · rename_i heq
+          split at heq
+          · cases heq
+          · cases heq
+            exact ⟨ls', by simp only [lookupPrefix, if_neg hq]; exact h', hl'⟩
+
+theorem applyOp_inv (key : Option Bytes) (p : Bytes) (l : Nat) (s : DS) (op : RegOp)
+    (hop : op ≠ .rm l ∧ ∀ b, op ≠ .setOpen b) (hopen : s.reg.isOpen = true) (hinv : Reg.Inv s.reg p l) :
+    (applyOp key s op).reg.table = s.reg.table ∧ (applyOp key s op).reg.isOpen = true ∧ Reg.Inv (applyOp key s op).reg p l
+      ∧ ∃ extra, (applyOp key s op).pending = s.pending ++ extra := by
+  cases op with
+  | add x =>
+    refine ⟨rfl, hopen, ?_, ?_⟩
+    · simp only [applyOp, Registry.addListener]
+      rcases hinv with h | ⟨ls, h, hl⟩
+      · left; simp at h ⊢; exact Or.inl h
+      · right
+        exact ⟨ls ++ [x], by rw [lookupPrefix_map_append, h]; rfl, List.mem_append_left _ hl⟩
+    · simp only [applyOp]; split
+      · exact ⟨[x], rfl⟩
+      · exact ⟨[], by simp⟩
+  | addp x q =>
+    simp only [applyOp]
+    cases hq : s.reg.addPrefixListener x q with
+    | none => exact ⟨rfl, hopen, hinv, [], by simp⟩
+    | some r' =>
+      unfold Registry.addPrefixListener at hq
+      split at hq
+      · cases hq
+      · cases hq
+        refine ⟨rfl, hopen, ?_, [], by simp⟩
+        rcases hinv with h | ⟨ls, h, hl⟩
+        · exact Or.inl h
+        · right
+          simp only [lookupPrefix_setPrefix]
+          by_cases hqp : (q == p) = true
+          · have : q = p := by simpa using hqp
+            subst this
+            rw [if_pos hqp, h]
+            exact ⟨_, rfl, by simp [hl]⟩
+          · rw [if_neg hqp]; exact ⟨ls, h, hl⟩
+  | rm x =>
+    have hne : l ≠ x := by intro h; apply hop.1; rw [h]
+    refine ⟨rfl, hopen, ?_, [], by simp [applyOp]⟩
+    simp only [applyOp, Registry.removeListener]
+    rcases hinv with h | ⟨ls, h, hl⟩
+    · left; simp at h ⊢; exact ⟨h, hne⟩
+    · rcases inv_rm_prefix s.reg.prefixMap (s.reg.listeners.filter (· != x)) p l x hne ls h hl with h' | h'
+      · left; simpa using h'
+      · right; exact h'
+  | setOpen b => exact absurd rfl (hop.2 b)
+
+theorem foldl_applyOp_inv (key : Option Bytes) (p : Bytes) (l : Nat) (ops : List RegOp)
+    (hops : ∀ op ∈ ops, op ≠ .rm l ∧ ∀ b, op ≠ .setOpen b) (s : DS) (hopen : s.reg.isOpen = true)
+    (hinv : Reg.Inv s.reg p l) :
+    (ops.foldl (applyOp key) s).reg.table = s.reg.table ∧ (ops.foldl (applyOp key) s).reg.isOpen = true
+      ∧ Reg.Inv (ops.foldl (applyOp key) s).reg p l ∧ ∃ extra, (ops.foldl (applyOp key) s).pending = s.pending ++ extra := by
+  induction ops generalizing s with
+  | nil => exact ⟨rfl, hopen, hinv, [], by simp⟩
+  | cons op rest ih =>
+    obtain ⟨ht, ho, hi, e1, hp1⟩ := applyOp_inv key p l s op (hops op (List.mem_cons_self ..)) hopen hinv
+    obtain ⟨ht2, ho2, hi2, e2, hp2⟩ := ih (fun o h => hops o (List.mem_cons_of_mem _ h)) (applyOp key s op) ho hi
+    simp only [List.foldl_cons]
+    exact ⟨by rw [ht2, ht], ho2, hi2, e1 ++ e2, by rw [hp2, hp1, List.append_assoc]⟩
+
+theorem applyOp_table (key : Option Bytes) (s : DS) (op : RegOp) : (applyOp key s op).reg.table = s.reg.table := by
+  cases op with
+  | add x => rfl
+  | addp x q =>
+    simp only [applyOp]
+    cases hq : s.reg.addPrefixListener x q with
+    | none => rfl
+    | some r' =>
+      unfold Registry.addPrefixListener at hq
+      split at hq
+      · cases hq
+      · cases hq; rfl
+  | rm x => rfl
+  | setOpen b => rfl
+
+theorem foldl_applyOp_table (key : Option Bytes) (ops : List RegOp) (s : DS) :
+    (ops.foldl (applyOp key) s).reg.table = s.reg.table := by
+  induction ops generalizing s with
+  | nil => rfl
+  | cons op rest ih => simp only [List.foldl_cons]; rw [ih, applyOp_table]
+
+theorem stepState_table (env : Env) (src data : Bytes) (key : Option Bytes) (s : DS) (l : Nat) (rest : List Nat)
+    (out : Out) : (stepState env src data key s l rest out).reg.table = s.reg.table := by
+  unfold stepState
+  rw [foldl_applyOp_table]
+
 end Ipv8.C03
